@@ -150,6 +150,10 @@ def pair_random(vd, tier, sd, tag, pollat=True, probe=False):
         tf = os.path.join(OUT, "traces", "tcp.pair.%s.zw.ndjson" % tag)
         run_harness(exe, ["tcp-pair", "--seed", sd * 1000 + 500, "--runs", 600 if tier == "quick" else 5000, "--out", tf, "--pollat", "--zwr"])
         files.append(tf)
+        # acknowledgment-loss runs only (data both ways, bare acknowledgments lost for seconds: both ends retransmit)
+        tf = os.path.join(OUT, "traces", "tcp.pair.%s.al.ndjson" % tag)
+        run_harness(exe, ["tcp-pair", "--seed", sd * 1000 + 600, "--runs", 200 if tier == "quick" else 2000, "--out", tf, "--pollat", "--ackloss"])
+        files.append(tf)
     return files
 
 
@@ -211,7 +215,7 @@ def replay_generic(obj, vd, prop):
             a.append("--pollat")
         flags = list(obj["ctx"].get("flags", []))
         ar = ev0.get("args", {})
-        for k in ("small", "probe", "zwr"):
+        for k in ("small", "probe", "zwr", "ackloss"):
             if ar.get(k) and "--" + k not in flags:
                 flags.append("--" + k)
         if ar.get("maxbytes") and ar["maxbytes"] != 20000:
